@@ -103,6 +103,8 @@ def predicate(c, o):
     acc = {}            # this incarnation: number -> block idx accepted under it
     prev_sub = None     # number of the previously submitted block (all incarnations)
     prev = None         # previous (qf, ql, qn, pf, pn)
+    gate = -1           # permits of queue_next_block as scripted (-1 = unlimited)
+    sub_hi = None       # highest number submitted in this incarnation
     for k, (op, out) in enumerate(zip(c["ops"], o["ops"])):
         if len(bad) > 8:
             break
@@ -113,6 +115,9 @@ def predicate(c, o):
         if restarted:
             acc = {}
             prev = None
+            sub_hi = None
+        if op["op"] == "gate":
+            gate = op["k"]
         qf = int(out["queued"][0]); ql = None if out["queued"][1] is None else int(out["queued"][1])
         pf = int(out["persisted"][0]); pl = None if out["persisted"][1] is None else int(out["persisted"][1])
         qn = qf if ql is None else ql + 1
@@ -141,6 +146,11 @@ def predicate(c, o):
                 fail(f"block submitted for number {n} (idx {s['idx']}) differs from the one accepted (idx {acc[n]})")
             acc.setdefault(n, s["idx"])
             prev_sub = n
+            sub_hi = n if sub_hi is None else max(sub_hi, n)
+        # hand-over progress: with persistence accepting calls and the runner alive, every
+        # accepted block that is not persisted has been handed over once the runtime is idle
+        if gate == -1 and out["alive"] and ql is not None and qn > pn and sub_hi != ql:
+            fail(f"accepted blocks up to {ql} are not handed to persistence (durable next {pn}, highest submitted {sub_hi})")
         # reads
         for r in out["reads"]:
             n = int(r["n"])
